@@ -163,6 +163,8 @@ func runC04(r *mc.Run) {
 		if nlev >= 3 {
 			ti.TcbLevels = append(ti.TcbLevels, c04Level(p, q.tee, 1, "OutOfDate"))
 		}
+		// dates of the levels: the listed order decides, whatever the dates say
+		c04Dates(ti.TcbLevels, c.Choose("level-dates", 3))
 		// TDX module identities
 		mod := c.Choose("module", 3)
 		misv := c.Choose("module.isvsvn", 3)
@@ -181,6 +183,7 @@ func runC04(r *mc.Run) {
 		case 4: // "tcbLevels": null
 			mlevels = nil
 		}
+		c04Dates(mlevels, c.Choose("module.level-dates", 3))
 		ms := strings.Repeat("00", 48)
 		switch mod {
 		case 0:
@@ -344,7 +347,7 @@ func runC04(r *mc.Run) {
 		eval(id, qi, ti, c.Deviations() > 0)
 	})
 	// full product of the first two levels (pattern x status) x module status class, for svn1 in {0, 3}
-	type prod struct{ qi, l1p, l1s, l2p, l2s, ms int }
+	type prod struct{ qi, l1p, l1s, l2p, l2s, ms, dates int }
 	var prods []prod
 	for _, qi := range []int{0, 2, 4, 5, 6, 7, 8, 9} {
 		for l1p := range c04Patterns {
@@ -355,7 +358,10 @@ func runC04(r *mc.Run) {
 							if (qi == 0 || qi == 4 || qi == 6 || qi == 8) && ms != 0 {
 								continue
 							}
-							prods = append(prods, prod{qi, l1p, l1s, l2p, l2s, ms})
+							prods = append(prods, prod{qi, l1p, l1s, l2p, l2s, ms, 0})
+							if qi == 0 || qi == 2 {
+								prods = append(prods, prod{qi, l1p, l1s, l2p, l2s, ms, 1})
+							}
 						}
 					}
 				}
@@ -365,6 +371,9 @@ func runC04(r *mc.Run) {
 	done := r.Parallel(len(prods), func(i int) {
 		p := prods[i]
 		id := fmt.Sprintf("product/q%d/svn1=%#x/l1=%s:%s,l2=%s:%s,module=%s", p.qi, svn1s[p.qi], c04Patterns[p.l1p], statuses[p.l1s], c04Patterns[p.l2p], classes[p.l2s], statuses[p.ms])
+		if p.dates != 0 {
+			id += ",dates=ascending"
+		}
 		if !r.Want(id) {
 			return
 		}
@@ -375,6 +384,7 @@ func runC04(r *mc.Run) {
 		if len(ti.TdxModuleIdentities) == 2 {
 			ti.TdxModuleIdentities[1].TcbLevels[0].TcbStatus = statuses[p.ms]
 		}
+		c04Dates(ti.TcbLevels, p.dates)
 		eval(id, p.qi, ti, true)
 	})
 	r.SectionDone(mc.Section{Name: "two-level-product", Evaluations: int64(done), Exhaustive: done == len(prods)})
@@ -392,4 +402,16 @@ func whyClass(why string) string {
 		return "no-module-level"
 	}
 	return strings.ReplaceAll(why, " ", "-")
+}
+
+// c04Dates gives the levels of a list equal (0), ascending (1: later listed = newer) or descending (2) dates.
+func c04Dates(ls []world.Level, mode int) {
+	for i := range ls {
+		switch mode {
+		case 1:
+			ls[i].TcbDate = fmt.Sprintf("20%02d-03-01T00:00:00Z", 20+i)
+		case 2:
+			ls[i].TcbDate = fmt.Sprintf("20%02d-03-01T00:00:00Z", 29-i)
+		}
+	}
 }
